@@ -327,7 +327,7 @@ var successScope = map[string][]string{
 	"C04": {"vm/vm.go", "vm/supervisor.go", "vm/vm_context/", "verifier/", "chain/"},
 	"C05": {"verifier/", "consensus/", "pillar/", "chain/momentum/", "wallet/crypto.go", "common/types/pillar"},
 	"C06": {"chain/", "common/db/", "consensus/"},
-	"C07": {"common/db/"},
+	"C07": {"common/db/", "chain/momentum/ledger_store.go", "chain/momentum/store.go", "chain/account/store.go"},
 	"C08": {"common/db/"},
 	"C09": {"vm/", "pillar/"},
 	"C10": {"vm/embedded/", "vm/vm.go", "vm/supervisor.go"},
